@@ -497,7 +497,8 @@ def handle (req : Json) : R Json := do
     let mut what : List String := if agree then [] else ["to_tsv lines"]
     let mut models : List (String × Json) := []
     let mut mh := true
-    let mut guard := true
+    -- the theorem's hypotheses, with the formatter's own inverse as processing function
+    let guard := guardB io fmtMd (processorOf (← strF req "formatter")) e
     for (route, lines, pname, checkMd, cli, requested, agreeMd, tj) in results do
       let imp ← asImported tj
       let e' : Export Num MdVal := if checkMd then e else { e with md := none }
@@ -516,7 +517,6 @@ def handle (req : Json) : R Json := do
       -- the theorem's composition: model export, uniform line end, model import
       let eol : Text := if lines.all (fun l => l.getLast? == some '\n') then ['\n'] else []
       mh := mh && holds e' (roundTrip io fmtMd proc eol e)
-      guard := guard && guardB io fmtMd proc e
       models := models ++ [(route, mj)]
     pure (Json.mkObj (verdictToJson verdict ++ [("agree", .bool agree), ("what", strsToJson what),
       ("model_holds", .bool mh), ("guard", .bool guard),
